@@ -167,8 +167,14 @@ void parity_size(struct snapraid_parity_handle* handle, data_off_t* out_size)
 
 	for (s = 0; s < handle->split_mac; ++s) {
 		struct snapraid_split_handle* split = &handle->split_map[s];
+		data_off_t split_size = split->size;
 
-		size += split->size;
+		/* if the file on disk is smaller than the size recorded in the content file, */
+		/* the parity data really available is only the one in the file */
+		if (split->st.st_size < split_size)
+			split_size = split->st.st_size;
+
+		size += split_size;
 	}
 
 	*out_size = size;
